@@ -43,7 +43,7 @@ LIMIT = rc.CODE_SIZE
 def plan(tier, seed):
     cases = []
     light = ['empty', 'onechar', 'short', 'typical', 'typical', 'repetitive_small', 'update60_start', 'update60_middle',
-             'update60_end', 'update60_raw', 'crlf', 'glyphs', 'version0', 'stream_entry', 'convert', 'cli_entry']
+             'update60_end', 'update60_raw', 'crlf', 'glyphs', 'allbytes', 'version0', 'stream_entry', 'convert', 'cli_entry']
     nl = 15 if tier == 'quick' else 120
     for r in range(nl):
         for c in light:
@@ -77,6 +77,12 @@ def make_code(rng, c):
         return b''       # (a cart without code: PICO-8 saves it without a Lua section)
     if cls in ('typical', 'stream_entry', 'convert', 'version0', 'cli_entry'):
         return carts.varied_lua(rng, rng.choice((40, 300, 2000, 6000)))
+    if cls == 'allbytes':
+        # every byte value a comment, a quoted string, a long string or a name can hold (NUL and CR aside: raw storage ends at the first,
+        # the reader turns the second into a blank)
+        # (quoted strings are left out: the writer may re-spell them, which C06 judges)
+        lines = [l for l in carts.bytes_lua(rng, rng.choice((6, 20, 60))).replace(b'\x00', b'\x01').split(b'\n') if l[:3] not in (b's="', b"s='")]
+        return b'\n'.join(lines)
     if cls == 'glyphs':
         return carts.simple_lua(rng, rng.choice((100, 1500)), glyphs=True)
     if cls == 'crlf':
@@ -464,6 +470,13 @@ def run_shard(spec, ctx):
             ctx.inconclusive_because('oracle self-test failed: reference stego not inverse')
             return
         ctx.monitor('oracle_selftests')
+        # bystanders in the destination directory: pictures whose names resemble the cart's (an exported label, a screenshot); the
+        # label source of a write is the destination itself, else the bundled blank label
+        for side in (BASE[0] + '.label.png', BASE[0] + '.png', BASE[0] + '-in.label.png', 'label.png'):
+            srows = [bytearray(carts.random_bytes(rng, rc.CART_W * 4)) for _ in range(rc.CART_H)]
+            with open(os.path.join(workdir, side), 'wb') as fh:
+                fh.write(rc.png_encode(rc.CART_W, rc.CART_H, srows))
+        ctx.feature('pictures_next_to_the_destination')
         for c in spec['cases']:
             run_case(ctx, rng, c, workdir)
         if spec['cases']:
@@ -486,7 +499,7 @@ def gates(m, tier):
     f, mon = m['features'], m['monitors']
     missed = []
     for k in ('class:empty', 'class:onechar', 'class:short', 'class:typical', 'class:repetitive_small', 'class:update60_start',
-              'class:update60_middle', 'class:update60_end', 'class:update60_raw', 'gfx_object_replaced', 'label_source_of_another_size', 'interlaced_label_source', 'class:incompressible', 'class:near_compressed', 'class:oversize',
+              'class:update60_middle', 'class:update60_end', 'class:update60_raw', 'class:allbytes', 'pictures_next_to_the_destination', 'gfx_object_replaced', 'label_source_of_another_size', 'interlaced_label_source', 'class:incompressible', 'class:near_compressed', 'class:oversize',
               'class:repetitive_big', 'class:convert', 'class:stream_entry', 'class:cli_entry', 'dest_exists', 'dest_absent'):
         if f.get(k, 0) < 1:
             missed.append('%s never generated' % k)
